@@ -262,7 +262,7 @@ def _closure(ctx, m):
                'XStr': 'XStr', 'Coordinate': 'Coordinate', 'date': 'date', 'time': 'time', 'datetime': 'datetime',
                'bool': 'bool', 'None': 'None', 'MARKER': 'MARKER', 'NA': 'NA', 'REMOVE': 'REMOVE', 'list': 'list',
                'dict': 'dict', 'Grid': 'Grid', 'itself': None, 'call:list': 'list', 'expr:DictComp': 'dict',
-               'call:parse_grid': 'Grid'}
+               'call:parse_grid': 'Grid', 'call:_parse_grid': 'Grid'}
     n = 0
     for rk in sorted(reader_kinds):
         if rk.startswith('forward:hs_grid'):
